@@ -9,6 +9,7 @@ use std::collections::{BTreeMap, HashSet};
 use std::fs::File;
 use std::io::{BufWriter, Write};
 
+mod c02;
 mod c05;
 mod c09;
 mod gen;
@@ -198,6 +199,8 @@ pub fn eval(out: &mut Out, req: &str) -> String {
     let args: Vec<&str> = it.collect();
     let r = if op.starts_with("leb.") {
         c09::eval(out, op, &args)
+    } else if op.starts_with("wire.") {
+        c02::eval(out, op, &args)
     } else if op.starts_with("sub.") {
         c05::eval(out, op, &args)
     } else if op.starts_with("pr.") {
@@ -253,6 +256,7 @@ fn main() {
     }
     match prop {
         "replay" => {}
+        "C02" => c02::run(&mut ctx),
         "C05" => c05::run(&mut ctx),
         "C09" => c09::run(&mut ctx),
         "C16" => c16::run(&mut ctx),
